@@ -16,8 +16,9 @@ STRS = [
     "", "a", "A", "abc", "1", "01", "-3", "2.5", "1e3", " 7 ", "true", "TRUE", "False",
     "none", "null", "path", "\\path", "100%", "%d", "%s%s", "%(a)s", "<b>&\"'`", "é",
     "a/b", "a.b", "b", "c", "x", "y", "3", "+5", "1_0", "3.0",
+    "inf", "-Infinity", "1e999", "nan", "{x}", "a}", "${HOME}", "{{ user }}", "{0}",
 ]
-KEYS_STR = ["a", "b", "c", "x", "y", "", "0", "1", "A", "key", "path", "a.b", "value", "keys"]
+KEYS_STR = ["a", "b", "c", "x", "y", "", "0", "1", "A", "key", "path", "a.b", "value", "keys", "paths", "{x}", "a}", "${HOME}", "%(k)s"]
 KEYS_OTHER = [0, 1, 2, True, False, 2.5, None, -1, 1.5]
 
 
@@ -299,7 +300,7 @@ def _part_for(rng, node, cond_depth=1, prim_p=0.5, miss_p=0.15, kinds_p=None):
     r = rng.random()
     if r < prim_p:
         if rng.random() < miss_p or not keys:
-            v = rng.choice(["zz", 99, 2.5, True, "0", 0, -1, 1])
+            v = rng.choice(["zz", 99, 2.5, True, "0", 0, -1, 1, 1.0, 2.0, 0.0])
         else:
             ks = [k for k in (node.keys() if is_map else range(len(node)))]
             v = rng.choice(ks)
